@@ -31,21 +31,27 @@ Proofs/NameWireSP.vos Proofs/NameWireSP.vok Proofs/NameWireSP.required_vos: Proo
 Proofs/RrlConcP.vo Proofs/RrlConcP.glob Proofs/RrlConcP.v.beautified Proofs/RrlConcP.required_vo: Proofs/RrlConcP.v Base/Res.vo Base/Octets.vo Model/Rrl.vo Model/RrlConc.vo Spec/RrlBucketS.vo Proofs/RrlP.vo
 Proofs/RrlConcP.vio: Proofs/RrlConcP.v Base/Res.vio Base/Octets.vio Model/Rrl.vio Model/RrlConc.vio Spec/RrlBucketS.vio Proofs/RrlP.vio
 Proofs/RrlConcP.vos Proofs/RrlConcP.vok Proofs/RrlConcP.required_vos: Proofs/RrlConcP.v Base/Res.vos Base/Octets.vos Model/Rrl.vos Model/RrlConc.vos Spec/RrlBucketS.vos Proofs/RrlP.vos
+Proofs/RrlFreshP.vo Proofs/RrlFreshP.glob Proofs/RrlFreshP.v.beautified Proofs/RrlFreshP.required_vo: Proofs/RrlFreshP.v Base/Res.vo Base/Octets.vo Model/Rrl.vo Spec/RrlBucketS.vo Proofs/RrlP.vo Proofs/RrlKeyP.vo
+Proofs/RrlFreshP.vio: Proofs/RrlFreshP.v Base/Res.vio Base/Octets.vio Model/Rrl.vio Spec/RrlBucketS.vio Proofs/RrlP.vio Proofs/RrlKeyP.vio
+Proofs/RrlFreshP.vos Proofs/RrlFreshP.vok Proofs/RrlFreshP.required_vos: Proofs/RrlFreshP.v Base/Res.vos Base/Octets.vos Model/Rrl.vos Spec/RrlBucketS.vos Proofs/RrlP.vos Proofs/RrlKeyP.vos
 Proofs/RrlKeyP.vo Proofs/RrlKeyP.glob Proofs/RrlKeyP.v.beautified Proofs/RrlKeyP.required_vo: Proofs/RrlKeyP.v Base/Res.vo Base/Octets.vo Model/Rrl.vo Spec/RrlBucketS.vo Spec/RrlStreamS.vo Proofs/RrlP.vo
 Proofs/RrlKeyP.vio: Proofs/RrlKeyP.v Base/Res.vio Base/Octets.vio Model/Rrl.vio Spec/RrlBucketS.vio Spec/RrlStreamS.vio Proofs/RrlP.vio
 Proofs/RrlKeyP.vos Proofs/RrlKeyP.vok Proofs/RrlKeyP.required_vos: Proofs/RrlKeyP.v Base/Res.vos Base/Octets.vos Model/Rrl.vos Spec/RrlBucketS.vos Spec/RrlStreamS.vos Proofs/RrlP.vos
+Proofs/RrlMixP.vo Proofs/RrlMixP.glob Proofs/RrlMixP.v.beautified Proofs/RrlMixP.required_vo: Proofs/RrlMixP.v Base/Res.vo Base/Octets.vo Model/Rrl.vo Spec/RrlBucketS.vo Spec/RrlMixS.vo Proofs/RrlP.vo
+Proofs/RrlMixP.vio: Proofs/RrlMixP.v Base/Res.vio Base/Octets.vio Model/Rrl.vio Spec/RrlBucketS.vio Spec/RrlMixS.vio Proofs/RrlP.vio
+Proofs/RrlMixP.vos Proofs/RrlMixP.vok Proofs/RrlMixP.required_vos: Proofs/RrlMixP.v Base/Res.vos Base/Octets.vos Model/Rrl.vos Spec/RrlBucketS.vos Spec/RrlMixS.vos Proofs/RrlP.vos
 Proofs/RrlP.vo Proofs/RrlP.glob Proofs/RrlP.v.beautified Proofs/RrlP.required_vo: Proofs/RrlP.v Base/Res.vo Base/Octets.vo Model/Rrl.vo Spec/RrlBucketS.vo
 Proofs/RrlP.vio: Proofs/RrlP.v Base/Res.vio Base/Octets.vio Model/Rrl.vio Spec/RrlBucketS.vio
 Proofs/RrlP.vos Proofs/RrlP.vok Proofs/RrlP.required_vos: Proofs/RrlP.v Base/Res.vos Base/Octets.vos Model/Rrl.vos Spec/RrlBucketS.vos
 Props/C14.vo Props/C14.glob Props/C14.v.beautified Props/C14.required_vo: Props/C14.v Base/ListX.vo Model/NameWire.vo Spec/NameWireS.vo Spec/NameRepr.vo Proofs/NameWireP.vo Proofs/NameWireSP.vo
 Props/C14.vio: Props/C14.v Base/ListX.vio Model/NameWire.vio Spec/NameWireS.vio Spec/NameRepr.vio Proofs/NameWireP.vio Proofs/NameWireSP.vio
 Props/C14.vos Props/C14.vok Props/C14.required_vos: Props/C14.v Base/ListX.vos Model/NameWire.vos Spec/NameWireS.vos Spec/NameRepr.vos Proofs/NameWireP.vos Proofs/NameWireSP.vos
-Props/C26.vo Props/C26.glob Props/C26.v.beautified Props/C26.required_vo: Props/C26.v Base/Res.vo Base/Octets.vo Model/Rrl.vo Spec/RrlBucketS.vo Proofs/RrlP.vo
-Props/C26.vio: Props/C26.v Base/Res.vio Base/Octets.vio Model/Rrl.vio Spec/RrlBucketS.vio Proofs/RrlP.vio
-Props/C26.vos Props/C26.vok Props/C26.required_vos: Props/C26.v Base/Res.vos Base/Octets.vos Model/Rrl.vos Spec/RrlBucketS.vos Proofs/RrlP.vos
-Props/C27.vo Props/C27.glob Props/C27.v.beautified Props/C27.required_vo: Props/C27.v Base/Res.vo Base/Octets.vo Model/Rrl.vo Spec/RrlBucketS.vo Spec/RrlStreamS.vo Proofs/RrlP.vo Proofs/RrlKeyP.vo
-Props/C27.vio: Props/C27.v Base/Res.vio Base/Octets.vio Model/Rrl.vio Spec/RrlBucketS.vio Spec/RrlStreamS.vio Proofs/RrlP.vio Proofs/RrlKeyP.vio
-Props/C27.vos Props/C27.vok Props/C27.required_vos: Props/C27.v Base/Res.vos Base/Octets.vos Model/Rrl.vos Spec/RrlBucketS.vos Spec/RrlStreamS.vos Proofs/RrlP.vos Proofs/RrlKeyP.vos
+Props/C26.vo Props/C26.glob Props/C26.v.beautified Props/C26.required_vo: Props/C26.v Base/Res.vo Base/Octets.vo Model/Rrl.vo Spec/RrlBucketS.vo Spec/RrlMixS.vo Proofs/RrlP.vo Proofs/RrlMixP.vo
+Props/C26.vio: Props/C26.v Base/Res.vio Base/Octets.vio Model/Rrl.vio Spec/RrlBucketS.vio Spec/RrlMixS.vio Proofs/RrlP.vio Proofs/RrlMixP.vio
+Props/C26.vos Props/C26.vok Props/C26.required_vos: Props/C26.v Base/Res.vos Base/Octets.vos Model/Rrl.vos Spec/RrlBucketS.vos Spec/RrlMixS.vos Proofs/RrlP.vos Proofs/RrlMixP.vos
+Props/C27.vo Props/C27.glob Props/C27.v.beautified Props/C27.required_vo: Props/C27.v Base/Res.vo Base/Octets.vo Model/Rrl.vo Spec/RrlBucketS.vo Spec/RrlStreamS.vo Proofs/RrlP.vo Proofs/RrlKeyP.vo Proofs/RrlFreshP.vo
+Props/C27.vio: Props/C27.v Base/Res.vio Base/Octets.vio Model/Rrl.vio Spec/RrlBucketS.vio Spec/RrlStreamS.vio Proofs/RrlP.vio Proofs/RrlKeyP.vio Proofs/RrlFreshP.vio
+Props/C27.vos Props/C27.vok Props/C27.required_vos: Props/C27.v Base/Res.vos Base/Octets.vos Model/Rrl.vos Spec/RrlBucketS.vos Spec/RrlStreamS.vos Proofs/RrlP.vos Proofs/RrlKeyP.vos Proofs/RrlFreshP.vos
 Props/C28.vo Props/C28.glob Props/C28.v.beautified Props/C28.required_vo: Props/C28.v Base/Res.vo Base/Octets.vo Model/Rrl.vo Model/RrlConc.vo Proofs/RrlP.vo Proofs/RrlConcP.vo
 Props/C28.vio: Props/C28.v Base/Res.vio Base/Octets.vio Model/Rrl.vio Model/RrlConc.vio Proofs/RrlP.vio Proofs/RrlConcP.vio
 Props/C28.vos Props/C28.vok Props/C28.required_vos: Props/C28.v Base/Res.vos Base/Octets.vos Model/Rrl.vos Model/RrlConc.vos Proofs/RrlP.vos Proofs/RrlConcP.vos
@@ -58,6 +64,9 @@ Spec/NameWireS.vos Spec/NameWireS.vok Spec/NameWireS.required_vos: Spec/NameWire
 Spec/RrlBucketS.vo Spec/RrlBucketS.glob Spec/RrlBucketS.v.beautified Spec/RrlBucketS.required_vo: Spec/RrlBucketS.v 
 Spec/RrlBucketS.vio: Spec/RrlBucketS.v 
 Spec/RrlBucketS.vos Spec/RrlBucketS.vok Spec/RrlBucketS.required_vos: Spec/RrlBucketS.v 
+Spec/RrlMixS.vo Spec/RrlMixS.glob Spec/RrlMixS.v.beautified Spec/RrlMixS.required_vo: Spec/RrlMixS.v Spec/RrlBucketS.vo
+Spec/RrlMixS.vio: Spec/RrlMixS.v Spec/RrlBucketS.vio
+Spec/RrlMixS.vos Spec/RrlMixS.vok Spec/RrlMixS.required_vos: Spec/RrlMixS.v Spec/RrlBucketS.vos
 Spec/RrlStreamS.vo Spec/RrlStreamS.glob Spec/RrlStreamS.v.beautified Spec/RrlStreamS.required_vo: Spec/RrlStreamS.v 
 Spec/RrlStreamS.vio: Spec/RrlStreamS.v 
 Spec/RrlStreamS.vos Spec/RrlStreamS.vok Spec/RrlStreamS.required_vos: Spec/RrlStreamS.v 
